@@ -11,8 +11,18 @@ for d in sorted(glob.glob(V + '/seeded/*/')):
     except Exception:
         continue
     det = {}
+    ownonly = False
     if os.path.exists(d + 'detection.json'):
         det = json.load(open(d + 'detection.json'))
+    if os.path.exists(d + 'detection_own.json'):
+        o = json.load(open(d + 'detection_own.json'))
+        if not det:
+            det, ownonly = o, True
+        else:
+            # the own-property run is the more recent one for that property
+            det['flagged'] = dict(det.get('flagged', {}))
+            det['flagged'].pop(meta['property'], None)
+            det['flagged'].update(o.get('flagged', {}))
     what = ''
     readme = d + 'AGENT_README.md'
     files = ', '.join(os.path.basename(f) for f in meta.get('files', []))
@@ -22,7 +32,7 @@ for d in sorted(glob.glob(V + '/seeded/*/')):
     first = ownhit[0] if ownhit else ''
     first = re.sub(r'^(sts|k8s|helper|apps)\.', '', first)
     others = sorted(p for p in flagged if p != own)
-    rows.append((name, own, files, 'yes' if ownhit else ('NO' if det else 'not run'), first[:110], ', '.join(others) or '-', det.get('repo_commit', '')))
+    rows.append((name, own, files, 'yes' if ownhit else ('NO' if det else 'not run'), first[:110], ('(other checks not run on this seed)' if ownonly else (', '.join(others) or '-')), det.get('repo_commit', '')))
 out = ['| seed | written against | file changed | caught by its own check | first failing obligation (input reproduced / no input) | also flagged by | at /repo commit |',
        '|------|-----------------|--------------|-------------------------|---------------------------------------------------------|-----------------|-----------------|']
 for r in rows:
